@@ -241,3 +241,112 @@ Example C09_gen_nonvacuous : qs (GlobalTrapezoidalGrid_compute_weights g6 (q 0 1
   qs (GlobalTrapezoidalGrid_compute_weights g5 (q 0 1) (q 1 1) true) = Some [0; 1 # 4; -3 # 8; 9 # 8; 0]%Q /\
   GlobalTrapezoidalGrid_compute_weights [q 0 1; q 1 2; q 1 2; q 3 4; q 1 1] (q 0 1) (q 1 1) true = None.
 Proof. repeat split; vm_compute; reflexivity. Qed.
+
+(* ==================================================================================================================
+   PHASE 3.  (1) The hierarchical Lagrange rule (GlobalLagrangeGrid with boundary points, integrate(f) = sum_i surplus_i(f) *
+   integral(basis_i), Model/LagrangeQuad.v) is exact for constants and linear functions on EVERY refinement tree and for every order
+   p >= 1; C10's tree theorems are imported: every tree system is unit triangular and uniquely solvable, hierarchisation is a
+   projection onto the span of the basis.  tree_system p true a b t is the system GlobalLagrangeGrid builds on the tree t. *)
+From SG Require Import Model.Basis Model.BasisTree Model.LagrangeQuad Model.SimpsonGlobal Proofs.BasisTreeP Proofs.LagrangeQuadP
+  Proofs.SimpsonGlobalP.
+Open Scope Qc_scope.
+
+Theorem C09_lagrange_tree_linear_exact : forall p a b t alpha beta sy,
+  (1 <= p)%nat -> a < b -> in_range a b t -> tree_system p true a b t = Some sy ->
+  let s := {| s_basis := sy; s_ord := Some (level_order (tree_levels t)) |} in
+  let f := fun x => alpha * x + beta in
+  hier_quad s (map f (map fst sy)) = Some (lin_int alpha beta a b) /\
+  exists sur, hier_nd [s] (map f (map fst sy)) = Some sur /\ forall x, a <= x -> x <= b -> interp_nd [s] [x] sur = f x.
+Proof. exact lagrange_tree_linear_exact. Qed.
+Print Assumptions C09_lagrange_tree_linear_exact.
+
+(* non-vacuity: the graded tree 0 < 1/4 < 1/2 < 1 with p = 2 is accepted and 3x + 1 is integrated to 5/2 *)
+Example C09_lagrange_tree_nonvacuous :
+  let t := RNode (RNode RLeaf (q 1 4) RLeaf) (q 1 2) RLeaf in
+  in_range 0 1 t /\
+  exists sy, tree_system 2 true 0 1 t = Some sy /\ length sy = 4%nat /\
+    option_map this (hier_quad {| s_basis := sy; s_ord := Some (level_order (tree_levels t)) |}
+                       (map (fun x => q 3 1 * x + 1) (map fst sy))) = Some (5 # 2)%Q.
+Proof.
+  cbv zeta. split; [cbn; repeat split; reflexivity|].
+  eexists. split; [vm_compute; reflexivity|]. split; vm_compute; reflexivity.
+Qed.
+
+(* (2) GlobalSimpsonGrid with an odd number of points (Model/SimpsonGlobal.v): the composite three-point rule on NON-UNIFORM panel
+   pairs integrates every quadratic exactly on every grid whose panel pairs have distinct points; cubics when every middle point is the
+   midpoint of its pair; the weights sum to x_{n-1} - x_0 *)
+Theorem C09_simpson_global_quadratic_exact : forall l w c0 c1 c2,
+  panel_pairs_ok l -> simpson_weights l = Some w ->
+  length w = length l /\ dotQ w (map (cubic_eval c0 c1 c2 0) l) = cubic_int c0 c1 c2 0 (hd 0 l) (last l 0).
+Proof. exact simpson_global_quadratic_exact. Qed.
+Theorem C09_simpson_global_cubic_exact : forall l w c0 c1 c2 c3,
+  panel_pairs_ok l -> panel_pairs_uniform l -> simpson_weights l = Some w ->
+  dotQ w (map (cubic_eval c0 c1 c2 c3) l) = cubic_int c0 c1 c2 c3 (hd 0 l) (last l 0).
+Proof. exact simpson_global_cubic_exact. Qed.
+Theorem C09_simpson_global_sum : forall l w, panel_pairs_ok l -> simpson_weights l = Some w -> sumQ w = last l 0 - hd 0 l.
+Proof. exact simpson_global_sum. Qed.
+Print Assumptions C09_simpson_global_quadratic_exact.
+Print Assumptions C09_simpson_global_cubic_exact.
+Example C09_simpson_global_nonvacuous :
+  panel_pairs_ok g5 /\ option_map (map this) (simpson_weights g5) = Some [(1 # 24)%Q; (1 # 6)%Q; (1 # 24)%Q; (9 # 16)%Q; (3 # 16)%Q]
+  /\ simpson_weights g4 = None.
+Proof. split; [cbn; repeat split; discriminate|]. split; vm_compute; reflexivity. Qed.
+
+(* ---------------------------------------------------------------------------------------------------------------------------------
+   phase 3, items (3) and (4) (Proofs/C09Phase3.v) *)
+From Coq Require Import Permutation.
+From SG Require Import Proofs.C09Phase3.
+Open Scope Qc_scope.
+
+(* (3) the open known findings, machine-checked on the model where the model has the code:
+   C09-lagrange-modified-linear: GlobalLagrangeGrid(p=2, boundary=False, modified_basis=True) on [0,1], points 0,1/4,1/2,1 (levels
+   0,2,1,0): the effective nodal weights (entry sub 4, compared with the code by 'rule-weights-differ') are 1/2, 1/2 - they sum to b-a,
+   the first moment is 3/8 instead of 1/2.  So "the modified Lagrange basis integrates linear functions exactly" is false on the model,
+   as the check reports on the code. *)
+Theorem C09_lagrange_modified_linear_refuted :
+  exists w, lagrange_nodal_weights 2 false true 0 1 [0; qq 1 4; qq 1 2; 1] [0; 2; 1; 0]%nat = Some w /\
+            sumQ w = 1 - 0 /\ dotQ w [qq 1 4; qq 1 2] <> (1 * 1 - 0 * 0) * Qchalf.
+Proof. exact lagrange_modified_linear_refuted. Qed.
+Print Assumptions C09_lagrange_modified_linear_refuted.
+
+(* C09-bspline-modified-linear: the model has the evaluation of the (modified) hierarchical B-splines but no closed integral of them
+   (the code integrates them by Gauss-Legendre on knot spans), so the witness is for the cause: with p=1, [-1,3], points -1,0,1,3
+   (levels 0,2,1,0) the modified hierarchical interpolant of f(x)=x is exact at the nodes and left of them but CONSTANT 1 right of the
+   last interior node (value 1 at x=2), so it is not f and its integral over [-1,3] cannot be that of f *)
+Theorem C09_bspline_modified_linear_not_reproduced :
+  exists sy sur, bspline_system 1 false true (qq (-1) 1) (qq 3 1) [qq (-1) 1; 0; 1; qq 3 1] [0; 2; 1; 0]%nat = Some sy /\
+    map fst sy = [0; 1] /\
+    let s := {| s_basis := sy; s_ord := None |} in
+    hier_nd [s] (map (fun x => x) (map fst sy)) = Some sur /\
+    interp_nd [s] [0] sur = 0 /\ interp_nd [s] [1] sur = 1 /\ interp_nd [s] [qq (-1) 2] sur = qq (-1) 2 /\
+    interp_nd [s] [qq 2 1] sur = 1 /\ interp_nd [s] [qq 2 1] sur <> qq 2 1.
+Proof. exact bspline_modified_linear_not_reproduced. Qed.
+Print Assumptions C09_bspline_modified_linear_not_reproduced.
+
+(* (4) "depends only on the point set", as the code has it: set_grid asserts sortedness (non-strictly), so of all orderings of a
+   multiset of points exactly the sorted one is accepted, and the grid object and the weights are a function of that multiset *)
+Theorem C09_set_grid_rejects_unsorted : forall bd mb a b x lv, sorted_le x = false -> set_grid_1d bd mb a b x lv = None.
+Proof. exact set_grid_rejects_unsorted. Qed.
+Theorem C09_trap_depends_only_on_multiset : forall bd mb a b x y lv gx gy,
+  Permutation x y -> set_grid_1d bd mb a b x lv = Some gx -> set_grid_1d bd mb a b y lv = Some gy ->
+  x = y /\ gx = gy /\ compute_weights x a b mb = compute_weights y a b mb.
+Proof. exact trap_depends_only_on_multiset. Qed.
+(* duplicates pass the (non-strict) sortedness assert; for the unmodified rule a point listed twice changes nothing: as a functional
+   on nodal values of ANY f the rule of  l1 ++ p :: p :: l2  is the rule of  l1 ++ p :: l2  (the two copies share the weight) *)
+Theorem C09_trap_duplicate_point_invisible : forall f a b l1 p l2,
+  dotQ (weights_raw false (l1 ++ p :: p :: l2) a b) (map f (l1 ++ p :: p :: l2))
+  = dotQ (weights_raw false (l1 ++ p :: l2) a b) (map f (l1 ++ p :: l2)).
+Proof. exact trap_duplicate_point_invisible. Qed.
+Print Assumptions C09_set_grid_rejects_unsorted.
+Print Assumptions C09_trap_depends_only_on_multiset.
+Print Assumptions C09_trap_duplicate_point_invisible.
+(* non-vacuity: the sorted g5 is accepted, a permutation of it is refused, and a duplicated point is accepted with the shared weight *)
+Example C09_point_set_nonvacuous :
+  (exists g, set_grid_1d true false 0 1 g5 [0; 3; 2; 1; 0]%Z = Some g) /\
+  set_grid_1d true false 0 1 [q 0 1; q 1 4; q 1 8; q 1 2; q 1 1] [0; 3; 2; 1; 0]%Z = None /\
+  Permutation g5 [q 0 1; q 1 4; q 1 8; q 1 2; q 1 1] /\
+  option_map (map this) (compute_weights [q 0 1; q 1 2; q 1 2; q 1 1] 0 1 false) = Some [(1 # 4)%Q; (1 # 4)%Q; (1 # 4)%Q; (1 # 4)%Q].
+Proof.
+  split; [eexists; vm_compute; reflexivity|]. split; [vm_compute; reflexivity|].
+  split; [unfold g5; apply perm_skip, perm_swap|]. vm_compute; reflexivity.
+Qed.
